@@ -134,48 +134,7 @@ func discharge(u *Unit, o *Obligation, cfg *solveCfg, idx int) {
 		return false
 	}
 	_ = want
-	if cfg.tier == "thorough" {
-		// ask all three; sat from anyone wins over unsat
-		var rs []solveResult
-		var wg sync.WaitGroup
-		var mu sync.Mutex
-		for _, s := range []string{"z3-new", "z3", "cvc5"} {
-			wg.Add(1)
-			go func(s string) {
-				defer wg.Done()
-				r := runSolver(s, file, cfg.slowT)
-				mu.Lock()
-				rs = append(rs, r)
-				mu.Unlock()
-			}(s)
-		}
-		wg.Wait()
-		var agree []string
-		for _, r := range rs {
-			o.Secs += r.secs
-			if r.status == "sat" {
-				o.Result = "sat"
-				o.Solver = r.solver
-				o.Model = r.out
-			}
-			if r.status == "unsat" {
-				agree = append(agree, r.solver)
-			}
-		}
-		sort.Strings(agree)
-		if o.Result != "sat" {
-			if len(agree) > 0 {
-				o.Result = "unsat"
-				o.Solver = strings.Join(agree, "+")
-			} else {
-				o.Result = rs[0].status
-				o.Solver = rs[0].solver
-			}
-		} else if len(agree) > 0 {
-			o.Comment = "solver disagreement: sat by " + o.Solver + ", unsat by " + strings.Join(agree, "+")
-		}
-		return
-	}
+	thorough := cfg.tier == "thorough"
 	if o.Cover {
 		// vacuity guards: the quantifier-free part decides almost all of them in milliseconds (an unsat there is
 		// an unsat of the whole; a sat there is reported as such)
@@ -202,6 +161,9 @@ func discharge(u *Unit, o *Obligation, cfg *solveCfg, idx int) {
 	}
 	// a short first attempt, then the three solvers race (the losers are stopped)
 	if record(runSolver("z3-new", file, 3)) {
+		if thorough {
+			crossCheck(o, file)
+		}
 		return
 	}
 	slowT := cfg.slowT
@@ -225,6 +187,9 @@ func discharge(u *Unit, o *Obligation, cfg *solveCfg, idx int) {
 	}
 	cancel()
 	if done {
+		if thorough {
+			crossCheck(o, file)
+		}
 		return
 	}
 	// undecided (quantifiers): look for a candidate counterexample of the quantifier-free part; it only
@@ -284,4 +249,41 @@ func dischargeAll(jobs []job, cfg *solveCfg) {
 	}
 	close(ch)
 	wg.Wait()
+}
+
+// crossCheck (thorough tier): an obligation that one solver discharged is put to the other two as well, with a short
+// budget. Agreement is recorded in the evidence (solver names joined by +); a solver that finds a model where another
+// proved the obligation is a disagreement and is reported as not discharged.
+func crossCheck(o *Obligation, file string) {
+	if o.Result != "unsat" {
+		return
+	}
+	first := o.Solver
+	var others []string
+	for _, s := range []string{"z3-new", "z3", "cvc5"} {
+		if s != first {
+			others = append(others, s)
+		}
+	}
+	ch := make(chan solveResult, len(others))
+	for _, s := range others {
+		go func(s string) { ch <- runSolver(s, file, 10) }(s)
+	}
+	agree := []string{first}
+	for range others {
+		r := <-ch
+		o.Secs += r.secs
+		switch r.status {
+		case "unsat":
+			agree = append(agree, r.solver)
+		case "sat":
+			o.Result = "sat"
+			o.Model = r.out
+			o.Comment = "solver disagreement: unsat by " + first + ", sat by " + r.solver
+			o.Solver = r.solver
+			return
+		}
+	}
+	sort.Strings(agree)
+	o.Solver = strings.Join(agree, "+")
 }
